@@ -169,6 +169,11 @@ pub uninterp spec fn block_height(b: &naga::Block) -> nat;
 pub assume_specification[ <naga::Block as core::ops::Deref>::deref ](b: &naga::Block) -> (r: &[naga::Statement])
     ensures r@ == block_stmts(b);
 
+// `for s in block` (IntoIterator for &Block is `self.iter()` in naga 24): the same slice iterator as `block.iter()`
+pub assume_specification<'a>[ <&'a naga::Block as IntoIterator>::into_iter ](b: &'a naga::Block) -> (r: core::slice::Iter<'a, naga::Statement>)
+    ensures r.remaining() == block_stmts(b).as_ref(), vstd::std_specs::slice::into_iter_elts(r) == r.remaining().unref(),
+        r.decrease() is Some, r.obeys_prophetic_iter_laws();   // the clauses vstd states for `<[T]>::iter`
+
 // ALL block-carrying constructs of the real naga::Statement, in one place.
 pub open spec fn sub_blocks(s: &naga::Statement) -> Seq<naga::Block> {
     match s {
